@@ -64,11 +64,16 @@ Record verdict := {
   model_run : bool      (* the history is a run of the model *)
 }.
 
-Definition check_case (ckind : N) (sc : script) (sizes rc : list N) (closed_seen : bool) : verdict :=
+(** [pieces]: the counts the wrapped writer reported, one per call MADE TO IT, in order.  An
+    implementation may hand one Write on in several pieces; Size() after each completed write of the
+    wrapped writer is a running sum of these counts (a superset of the per-call sums when the pieces of
+    a call add up to the call's total). *)
+Definition check_case (ckind : N) (sc : script) (pieces sizes rc : list N) (closed_seen : bool) : verdict :=
   let ps := psums 0 (reps sc) in
+  let pps := psums 0 pieces in
   {| spec_size := eqbl sizes ps;
      spec_mono := nondecb 0 rc;
-     spec_prefix := forallb (fun v => memb v ps) (removelast rc);
+     spec_prefix := forallb (fun v => memb v ps || memb v pps) (removelast rc);
      spec_final := negb (is_nil rc) && (last rc 0 =? total sc);
      spec_closed := closed_seen;
      model_run :=
